@@ -30,7 +30,7 @@ ASSUMPTIONS = ['ref/match.py decides which (path, route) pairs match; canonical 
 
 MODES = [M.REDIRECT, M.REWRITE, M.STRICT]
 PLACEMENTS = ['app', 'route', 'embed-inherit', 'embed-own']
-SEGS = ['a', 'a?b', '#', '%', '%41', 'a b', 'a;b=c', 'a&b=c', u'\xe9']
+SEGS = ['a', 'a?b', '#', '%', '%41', 'a b', 'a;b=c', 'a&b=c', u'\xe9', '.', '..']
 SEGS2 = ['a', 'a?b', '%41']
 QUERIES = ['', 'x=1', 'x=%3F&y=a+b', u'\xe9=1'.encode('utf-8').decode('latin-1'), u'\xe9=1', 'a=%C3%A9&&b']
 ALL_METHODS = ['GET', 'HEAD', 'POST', 'PUT', 'DELETE', 'OPTIONS', 'TRACE', 'CONNECT', 'PATCH']
@@ -119,7 +119,11 @@ class Harness(object):
         pat = pattern_for(shape, branch)
         ep = self.eps[shape]
         if placement == 'app':
-            return Application([Route(pat, ep, methods=methods)], slash_mode=mode), ''
+            # the Route object has been bound before, into an application with another slash mode
+            rt = Route(pat, ep, methods=methods)
+            Application([rt], slash_mode=other)
+            Application([('/', Application([rt], slash_mode=MODES[(MODES.index(mode) + 2) % 3]))], slash_mode=other)
+            return Application([rt], slash_mode=mode), ''
         if placement == 'route':
             app = Application([], slash_mode=other)
             app.add(Route(pat, ep, methods=methods, slash_mode=mode), inherit_slashes=False)
@@ -151,15 +155,17 @@ def expected(cfg, prefix, raw_path, method):
     return D.dispatch(table, mode, eff, method), eff
 
 
-def check_request(acc, h, app, cfg, prefix, segs, defect, query, method, sigkey):
+def check_request(acc, h, app, cfg, prefix, segs, defect, query, method, sigkey, script_name=''):
     shape, branch, mode, placement, methods = cfg
     raw_path = prefix + render_path(segs, defect) if prefix else render_path(segs, defect)
     if prefix and defect == 'leading-double':
         raw_path = '/' + prefix + render_path(segs, 'canonical')
     exp, eff = expected(cfg, prefix, raw_path, method)
-    case = {'cfg': list(cfg), 'segs': segs, 'defect': defect, 'query': query, 'method': method}
+    case = {'cfg': list(cfg), 'segs': segs, 'defect': defect, 'query': query, 'method': method, 'script_name': script_name}
     del h.seen[:]
-    res = wsgi.call(app, raw_path, method, query=query)
+    env0 = wsgi.make_environ(raw_path, method, query=query)
+    env0['SCRIPT_NAME'] = script_name
+    res = wsgi.call(app, None, environ=env0)
     acc.evaluated += 1
     acc.transitions += 1
     acc.validated += 1
@@ -189,6 +195,11 @@ def check_request(acc, h, app, cfg, prefix, segs, defect, query, method, sigkey)
         if u.scheme != 'http' or u.netloc != 'localhost':
             bad('location-origin', 'Location %r leaves the origin' % loc)
             return
+        if script_name:
+            if not got_path.startswith(script_name + '/'):
+                bad('location-mount', 'Location %r leaves the mount point %r' % (loc, script_name))
+                return
+            got_path = got_path[len(script_name):]
         if got_path != canon:
             bad('location-path', 'Location %r denotes path %r, expected %r' % (loc, got_path, canon))
             return
@@ -205,7 +216,10 @@ def check_request(acc, h, app, cfg, prefix, segs, defect, query, method, sigkey)
         # follow the redirect: one hop, same route, same parameters
         del h.seen[:]
         path2 = unquote_to_bytes(u.path).decode('latin-1')
+        if script_name:
+            path2 = path2[len(script_name):]
         env = wsgi.make_environ(path2, method, query=u.query, raw_path=True)
+        env['SCRIPT_NAME'] = script_name
         res2 = wsgi.call(app, None, environ=env)
         acc.transitions += 1
         exp2, _ = expected(cfg, prefix, canon, method)
@@ -271,6 +285,9 @@ def shard(tier, i, n, seed):
             for query in queries:
                 for method in ALL_METHODS:
                     check_request(acc, h, app, cfg, prefix, segs, defect, query, method, sigkey)
+                if query in ('', 'x=1'):
+                    # the application served below a mount point
+                    check_request(acc, h, app, cfg, prefix, segs, defect, query, 'GET', sigkey, '/mount')
         if wi % 41 == 0:
             acc.sample({'config': list(cfg), 'defect': defect, 'example_path': render_path(seg_tuples(cfg[0], tier)[-1], defect),
                         'queries': len(queries), 'methods': len(ALL_METHODS)})
@@ -280,7 +297,7 @@ def shard(tier, i, n, seed):
 def space_size(tier):
     total = 0
     for cfg in configs():
-        total += len(DEFECTS) * len(seg_tuples(cfg[0], tier)) * len(QUERIES) * len(ALL_METHODS)
+        total += len(DEFECTS) * len(seg_tuples(cfg[0], tier)) * (len(QUERIES) * len(ALL_METHODS) + 2)
     return total
 
 
@@ -304,7 +321,8 @@ def replay(case):
     h = Harness()
     cfg = tuple(case['cfg'])
     app, prefix = h.build(cfg)
-    check_request(acc, h, app, cfg, prefix, case['segs'], case['defect'], case['query'], case['method'], sigkey)
+    check_request(acc, h, app, cfg, prefix, case['segs'], case['defect'], case['query'], case['method'], sigkey,
+                  case.get('script_name', ''))
     if acc.violations:
         return False, acc.violations[0]['desc']
     return True, 'ok'
